@@ -480,6 +480,9 @@ class simplify_chained_calls(FuncADLNodeTransformer):
         # Anything but a plain, non-negative, integer constant is left as is
         if not (isinstance(s, ast.Constant) and type(s.value) is int and s.value >= 0):
             return ast.Subscript(v, s, ast.Load())  # type: ignore
+        # With a `*seq` element we can't tell statically which element is the n'th
+        if any(isinstance(e, ast.Starred) for e in v.elts):
+            return ast.Subscript(v, s, ast.Load())  # type: ignore
         n = s.value
         if n >= len(v.elts):
             raise FuncADLIndexError(
@@ -497,6 +500,9 @@ class simplify_chained_calls(FuncADLNodeTransformer):
         """
         # Anything but a plain, non-negative, integer constant is left as is
         if not (isinstance(s, ast.Constant) and type(s.value) is int and s.value >= 0):
+            return ast.Subscript(v, s, ast.Load())  # type: ignore
+        # With a `*seq` element we can't tell statically which element is the n'th
+        if any(isinstance(e, ast.Starred) for e in v.elts):
             return ast.Subscript(v, s, ast.Load())  # type: ignore
         n = s.value
         if n >= len(v.elts):
